@@ -91,6 +91,35 @@ def rule_a(ctx):
                     ok, detail = False, 'no path sends CANCEL when the future was cancelled'
                 rep.add('C09.a', '%s / CANCEL iff cancelled while pending' % en.name, en.func, ok,
                         detail or 'CANCEL is sent exactly on the paths where cancelled() holds')
+    # the callback is really registered on the future handed to the caller (cancelling that future is the
+    # application's only way to cancel a request-response)
+    base = ctx.slots.RSocketBase
+    api = base.methods.get('request_response')
+    if api is None:
+        raise AnalysisError('C09.a: RSocketBase.request_response vanished')
+    ok = True
+    detail = ''
+    n_ret = 0
+    for p in ctx.paths(api, ctx.slots.RSocketClient, inline_depth=3,
+                       no_inline={'allocate_stream', 'register_stream', 'send_request'}):
+        if p.outcome != 'return':
+            continue
+        n_ret += 1
+        regs = [e for e in p.events if e.kind == 'call' and e.data.get('name') == 'add_done_callback' and
+                e.data.get('recv') is not None and e.data['recv'].term == p.value.term]
+        if not regs:
+            ok, detail = False, 'the future returned to the caller has no done-callback: cancelling it sends no CANCEL'
+            continue
+        cb = regs[0].data['args'][0].term if regs[0].data.get('args') else None
+        if not (cb and cb[0] == 'boundmethod' and cb[1][0] == 'new'):
+            ok, detail = False, 'the done-callback is not a method of the requester created for this request'
+            continue
+        cls = [h for h in m.handlers if h.name == cb[1][2]]
+        if not cls or cb[2] not in m._registered_callbacks(cls[0]):
+            ok, detail = False, 'the registered callback %s is not the requester\'s cancel callback' % cb[2]
+    rep.add('C09.a', 'RSocketBase.request_response / cancel callback registered on the returned future', api,
+            ok and n_ret > 0, detail or 'add_done_callback(requester.<cancel callback>) on the returned future on all %d '
+                                        'paths' % n_ret)
     # a cancel after the response has terminated the stream sends nothing
     for h in m.handlers:
         if m.role(h) != ('response', 'requester'):
